@@ -78,12 +78,15 @@ pub struct Push {
     pub after_client_frames: usize,
     /// offered only after this many earlier pushes were used (orders pushes; usize::MAX = any)
     pub after_pushes: usize,
+    /// offered only while this channel is open at the broker and has seen at least this
+    /// many requests (Channel.Open counts as the first)
+    pub chan_requests: Option<(u16, u32)>,
     pub used: bool,
 }
 
 impl Push {
     pub fn new(label: &str, frames: Vec<AMQPFrame>) -> Push {
-        Push { label: label.to_string(), frames, eof_after: false, after_client_frames: 0, after_pushes: 0, used: false }
+        Push { label: label.to_string(), frames, eof_after: false, after_client_frames: 0, after_pushes: 0, chan_requests: None, used: false }
     }
     pub fn after_frames(mut self, n: usize) -> Push {
         self.after_client_frames = n;
@@ -91,6 +94,10 @@ impl Push {
     }
     pub fn after_pushes(mut self, n: usize) -> Push {
         self.after_pushes = n;
+        self
+    }
+    pub fn when_channel(mut self, chan: u16, requests: u32) -> Push {
+        self.chan_requests = Some((chan, requests));
         self
     }
     pub fn eof(mut self) -> Push {
@@ -144,6 +151,8 @@ pub struct StdBroker {
     emitted: usize,
     /// stop answering anything once the handshake is done
     pub silent_after_handshake: bool,
+    /// channels currently open from the broker's point of view
+    pub open_channels: std::collections::BTreeSet<u16>,
 }
 
 impl StdBroker {
@@ -172,6 +181,7 @@ impl StdBroker {
             corrupt_frame: None,
             emitted: 0,
             silent_after_handshake: false,
+            open_channels: Default::default(),
         }
     }
 
@@ -213,15 +223,21 @@ impl StdBroker {
         let f = |c: AMQPClass| Some(vec![AMQPFrame::Method(chan, c)]);
         match m {
             Channel(channel::AMQPMethod::Open(_)) => {
+                self.seq.insert(chan, 0);
+                self.open_channels.insert(chan);
                 self.next_seq(chan);
                 f(Channel(channel::AMQPMethod::OpenOk(channel::OpenOk { channel_id: String::new() })))
             }
             Channel(channel::AMQPMethod::Close(_)) => {
+                self.open_channels.remove(&chan);
                 self.next_seq(chan);
                 self.confirms.remove(&chan);
                 f(Channel(channel::AMQPMethod::CloseOk(channel::CloseOk {})))
             }
-            Channel(channel::AMQPMethod::CloseOk(_)) => None,
+            Channel(channel::AMQPMethod::CloseOk(_)) => {
+                self.open_channels.remove(&chan);
+                None
+            }
             Queue(queue::AMQPMethod::Declare(d)) => {
                 let s = self.next_seq(chan);
                 if d.nowait {
@@ -485,6 +501,26 @@ impl StdBroker {
     }
 }
 
+impl StdBroker {
+    fn push_available(&self, p: &Push) -> bool {
+        if p.used || self.server_closed || self.client_closed {
+            return false;
+        }
+        if self.frames.len() < p.after_client_frames {
+            return false;
+        }
+        if p.after_pushes != usize::MAX && self.pushes_used < p.after_pushes {
+            return false;
+        }
+        if let Some((chan, n)) = p.chan_requests {
+            if !self.open_channels.contains(&chan) || self.seq.get(&chan).copied().unwrap_or(0) < n {
+                return false;
+            }
+        }
+        true
+    }
+}
+
 impl Broker for StdBroker {
     fn on_client_bytes(&mut self, bytes: &[u8], out: &mut BrokerOut) {
         self.buf.extend_from_slice(bytes);
@@ -546,7 +582,7 @@ impl Broker for StdBroker {
             }
         }
         for p in &self.pushes {
-            if !p.used && self.frames.len() >= p.after_client_frames && (p.after_pushes == usize::MAX || self.pushes_used >= p.after_pushes) && !self.server_closed {
+            if self.push_available(p) {
                 v.push(format!("push({})", p.label));
             }
         }
@@ -564,11 +600,9 @@ impl Broker for StdBroker {
             }
             i += 1;
         }
-        let n = self.frames.len();
-        let used = self.pushes_used;
-        let closed = self.server_closed;
-        for p in self.pushes.iter_mut() {
-            if !p.used && n >= p.after_client_frames && (p.after_pushes == usize::MAX || used >= p.after_pushes) && !closed {
+        let avail: Vec<bool> = self.pushes.iter().map(|p| self.push_available(p)).collect();
+        for (pi, p) in self.pushes.iter_mut().enumerate() {
+            if avail[pi] {
                 if i == idx {
                     p.used = true;
                     let frames = p.frames.clone();
@@ -577,6 +611,9 @@ impl Broker for StdBroker {
                     for f in &frames {
                         if let AMQPFrame::Method(0, AMQPClass::Connection(connection::AMQPMethod::Close(_))) = f {
                             self.server_closed = true;
+                        }
+                        if let AMQPFrame::Method(c, AMQPClass::Channel(channel::AMQPMethod::Close(_))) = f {
+                            self.open_channels.remove(c);
                         }
                     }
                     self.emit_now(&frames, out);
